@@ -114,10 +114,60 @@ def _shrink_rng(st, rng, idx, what):
     raise Unproven('%s range would be split in the middle' % what)
 
 
+# ---- "asked" positions (retain: the predicate runs at most once per element).  An UNDER-approximation of the
+# slots holding an element for which the user callable has already been called: forgetting is always allowed.
+def asked_possible(st, ms, idx):
+    """may slot idx hold an element that was already asked?  (feasibility of lo <= idx < hi)"""
+    for lo, hi in ms.asked or ():
+        z2 = st.zone.copy()
+        z2.add_le(lo, idx)
+        z2.add_lt(idx, hi)
+        if z2.sat:
+            return (lo, hi)
+    return None
+
+
+def asked_add(st, ms, idx):
+    z = st.zone
+    rs = list(ms.asked or ())
+    for n, (lo, hi) in enumerate(rs):
+        if z.entails_eq(idx, hi):
+            rs[n] = (lo, plus(st, idx, 1))
+            ms.asked = tuple(rs)
+            return
+        if z.entails_le(hi, lo):
+            rs[n] = (idx, plus(st, idx, 1))
+            ms.asked = tuple(rs)
+            return
+    rs.append((idx, plus(st, idx, 1)))
+    ms.asked = tuple(rs[-2:])
+
+
+def asked_remove(st, ms, idx):
+    if not ms.asked:
+        return
+    z = st.zone
+    rs = []
+    for lo, hi in ms.asked:
+        if z.entails_lt(idx, lo) or z.entails_le(hi, idx) or z.entails_le(hi, lo):
+            rs.append((lo, hi))
+        elif z.entails_eq(hi, idx, 1):
+            rs.append((lo, idx))        # (first: keeps the lower end, and with it the loop invariant lo == const)
+        elif z.entails_eq(idx, lo):
+            rs.append((plus(st, idx, 1), hi))
+        else:
+            rs.append((0, 0))       # cannot tell where inside the range: forget the range
+    ms.asked = tuple(rs)
+
+
 def kill(st, mid, idx):
     """slot idx (proved live) is moved out / destroyed"""
     ms = st.maps[mid]
     z = st.zone
+    if ms.asked is not None:
+        inside = any(z.entails_le(lo, idx) and z.entails_lt(idx, hi) for lo, hi in ms.asked)
+        ms.asked_carry = content(st, mid, idx)[0] if inside else None
+        asked_remove(st, ms, idx)
     for e in ms.extras:
         if z.entails_eq(idx, e):
             ms.extras = tuple(x for x in ms.extras if x is not e)
@@ -163,9 +213,14 @@ def content(st, mid, idx):
     return (('stored', mid, idx, 0), ('stored', mid, idx, 1))
 
 
-def set_content(st, mid, idx, tags):
+def set_content(st, mid, idx, tags, same_element=False):
     ms = st.maps[mid]
     z = st.zone
+    if ms.asked is not None and not same_element:
+        asked_remove(st, ms, idx)
+        if ms.asked_carry is not None and tags[0] == ms.asked_carry:
+            asked_add(st, ms, idx)      # an element that was asked before has been moved here
+        ms.asked_carry = None
     keep = []
     for (i, t) in ms.contents:
         if z.entails_eq(i, idx):
